@@ -222,6 +222,11 @@ func (e *Engine) exec(st *State, th *Thread, fr *Frame, in ssa.Instruction) {
 		next(fr)
 	case *ssa.Alloc:
 		p := e.allocMem(st, x.Type().(*types.Pointer).Elem())
+		if !x.Heap {
+			if o, ok := st.heap[p.Obj]; ok {
+				o.Local = true
+			}
+		}
 		e.setReg(fr, x, p)
 		next(fr)
 	case *ssa.BinOp:
@@ -292,6 +297,9 @@ func (e *Engine) exec(st *State, th *Thread, fr *Frame, in ssa.Instruction) {
 		next(fr)
 	case *ssa.Store:
 		p := e.val(st, fr, x.Addr).(Ptr)
+		if (st.WatchAll || len(st.Watched) > 0) && e.watched(st, p.Obj) && e.schedPoint(st, th) {
+			return
+		}
 		e.store(st, p, x.Val.Type(), e.val(st, fr, x.Val))
 		next(fr)
 	case *ssa.MakeSlice:
@@ -542,6 +550,9 @@ func (e *Engine) execUnOp(st *State, th *Thread, fr *Frame, x *ssa.UnOp) {
 	switch x.Op {
 	case token.MUL:
 		p := e.val(st, fr, x.X).(Ptr)
+		if (st.WatchAll || len(st.Watched) > 0) && e.watched(st, p.Obj) && e.schedPoint(st, th) {
+			return
+		}
 		e.setReg(fr, x, e.load(st, p, x.Type()))
 		next(fr)
 	case token.NOT:
@@ -1164,3 +1175,18 @@ func (e *Engine) execTypeAssert(st *State, fr *Frame, x *ssa.TypeAssert) {
 }
 
 var _ = math.MaxInt64
+
+func (e *Engine) watched(st *State, obj int) bool {
+	if st.WatchAll {
+		if o := e.obj(st, obj); o != nil && !o.Local {
+			return true
+		}
+		return false
+	}
+	for _, w := range st.Watched {
+		if w == obj {
+			return true
+		}
+	}
+	return false
+}
